@@ -12,6 +12,7 @@ import (
 	"sort"
 	"strconv"
 	"strings"
+	"sync/atomic"
 	"testing"
 
 	"pgregory.net/rapid"
@@ -124,6 +125,11 @@ func genProgram(t *rapid.T) Case {
 			c.Ops = append(c.Ops, peng.Op{Kind: "stop", Thread: 0, Call: scen.CallSpec{Node: v}})
 		}
 	}
+	if rapid.IntRange(0, 3).Draw(t, "failSend") == 0 {
+		// one stream write fails (injected; nothing is written): the node it was meant for - victim or
+		// not - fails that call and the calls waiting on the same stream, once each
+		c.Mgrs[0].FailSendAt = []int{rapid.IntRange(1, 40).Draw(t, "failSendAt")}
+	}
 	c.Jitter = peng.GenJitter(t)
 	return Case{P: &c, Victims: victims}
 }
@@ -155,6 +161,10 @@ func runProgram(c Case) vt.Verdict {
 	isVictim := map[int]bool{}
 	for _, v := range c.Victims {
 		isVictim[v] = true
+	}
+	injected := len(r.Clients) > 0 && atomic.LoadInt32(&r.Clients[0].SendsFailed) > 0
+	if injected {
+		classes = append(classes, "injected-send-failure")
 	}
 	if len(r.HungAfterClose) > 0 {
 		h := r.HungAfterClose[0]
@@ -219,6 +229,9 @@ func runProgram(c Case) vt.Verdict {
 			if isVictim[s] {
 				want = 1
 			}
+			if injected && !isVictim[s] && counts[s] <= 1 {
+				continue // the node whose stream write was failed on purpose may fail the calls pending on that stream
+			}
 			if counts[s] != want {
 				return vt.Verdict{OK: false, Key: "C07/program/error-count", History: r.Events, Classes: classes,
 					Msg: fmt.Sprintf("call %d (%s): server %d (victim=%v) is listed %d times in the error, want %d: %s", ci.Idx, ci.Kind, s, isVictim[s], counts[s], want, ret.ErrText)}
@@ -262,7 +275,7 @@ func run(c Case) vt.Verdict {
 func TestProp(t *testing.T) {
 	vt.Main(t, vt.Spec[Case]{
 		ID:           "C07",
-		Rule:         "fault enumeration by generation, two case shapes. (Q, 3 of 4) one scripted call on 1-7 servers with a failing subset of any size, per failing node a kind from {never started, stopped before the call, stopped at a generated position of the script (before the request is answered, while its handler is held, after its reply), handler status error with any of the 16 non-OK codes and a generated message, non-status Go error, reply together with an error}, thresholds 1..n+1 and value-dependent scripts, sync and async; oracle: success when the healthy replies satisfy the script, completion once every node answered or failed, exactly one 'node <id>:' line per failing node and none for healthy ones, handler code and message intact, connection failures of unavailable type, no reply entry for a failing node. (P, 1 of 4) a concurrent program: 2-5 threads issue 3-14 two-way calls of 12 kinds with contexts that never end on overlapping configurations, every call needs all its nodes, per-node functions spend 0.1-2 ms per node (so calls hand over their requests in another order than they drew their message ids), handlers on a generated set of victim servers are held, then all victims are stopped while calls wait; oracle: every call is completed (none left waiting), no call succeeds without its victims, every Incomplete error lists each victim exactly once and no healthy node. Non-trivial = (Q) at least one failing node and (a stop after the handler was entered, or two different failure kinds, or a handler error); (P) at least one call was waiting when the servers were stopped (measured)",
+		Rule:         "fault enumeration by generation, two case shapes. (Q, 3 of 4) one scripted call on 1-7 servers with a failing subset of any size, per failing node a kind from {never started, stopped before the call, stopped at a generated position of the script (before the request is answered, while its handler is held, after its reply), handler status error with any of the 16 non-OK codes and a generated message, non-status Go error, reply together with an error}, thresholds 1..n+1 and value-dependent scripts, sync and async; oracle: success when the healthy replies satisfy the script, completion once every node answered or failed, exactly one 'node <id>:' line per failing node and none for healthy ones, handler code and message intact, connection failures of unavailable type, no reply entry for a failing node. (P, 1 of 4) a concurrent program: 2-5 threads issue 3-14 two-way calls of 12 kinds with contexts that never end on overlapping configurations, every call needs all its nodes, per-node functions spend 0.1-2 ms per node (so calls hand over their requests in another order than they drew their message ids), handlers on a generated set of victim servers are held, then all victims are stopped while calls wait, in a quarter of the programs one injected failure of a single stream write (client stream interceptor); oracle: every call is completed (none left waiting), no call succeeds without its victims, every Incomplete error lists each victim exactly once and no healthy node (with an injected write failure a healthy node may be listed, at most once per call). Non-trivial = (Q) at least one failing node and (a stop after the handler was entered, or two different failure kinds, or a handler error); (P) at least one call was waiting when the servers were stopped (measured)",
 		Gen:          gen,
 		Run:          run,
 		TrackCurrent: true,
